@@ -134,6 +134,7 @@ struct Prog {
 	long rounds;            // per thread
 	std::vector<std::vector<uint8_t>> script; // per thread: small repeating op pattern
 	bool disjoint_work;
+	bool high_count = false;     // the last shared node carries 2^31 + 1000 references of the main thread throughout
 	bool thread_formats = false; // every thread installs its own JSON_C_OPTION_THREAD double format
 	bool via_container = false; // extra references are held by (and released through) thread-private arrays / objects
 };
@@ -363,6 +364,15 @@ static void run_refcount(Choices &c, Ctx &ctx)
 	p.cold_start = c.coin(40);
 	p.via_container = c.coin(40);
 	p.thread_formats = c.coin(50);
+#if !defined(VERIF_TSAN) && !defined(__SANITIZE_ADDRESS__)
+#if defined(__has_feature)
+#if !__has_feature(address_sanitizer)
+	p.high_count = c.coin(15);
+#endif
+#else
+	p.high_count = c.coin(15);
+#endif
+#endif
 	for (int i = 0; i < p.nthreads; i++)
 	{
 		std::vector<uint8_t> sc;
@@ -406,6 +416,13 @@ static void run_refcount(Choices &c, Ctx &ctx)
 				json_object_get(s->node);
 		nodes.push_back(s);
 	}
+	if (p.high_count)
+	{
+		// a 32-bit counter legitimately holds more than 2^31 references: the sign bit must not mean anything
+		json_object *bulk = nodes.back()->node;
+		for (uint32_t i = 0; i < (1u << 31) + 1000; i++)
+			json_object_get(bulk);
+	}
 	Barrier b, b2;
 	b.n = p.nthreads + 1;
 	b2.n = p.nthreads + 1;
@@ -430,7 +447,7 @@ static void run_refcount(Choices &c, Ctx &ctx)
 	bool main_last = c.coin(50);
 	if (!main_last)
 		for (auto s : nodes)
-			if (json_object_put(s->node) == 1)
+			if (!(p.high_count && s == nodes.back()) && json_object_put(s->node) == 1)
 				main_freed++;
 	for (int i = 0; i < p.nthreads; i++)
 		pthread_join(th[i], nullptr);
@@ -441,10 +458,21 @@ static void run_refcount(Choices &c, Ctx &ctx)
 		for (auto s : nodes)
 			early += s->destroyed.load();
 		for (auto s : nodes)
-			if (json_object_put(s->node) == 1)
+			if (!(p.high_count && s == nodes.back()) && json_object_put(s->node) == 1)
 				main_freed++;
 	}
 	g_phase = 0;
+	Shared *bulk = nullptr;
+	if (p.high_count)
+	{
+		// the main thread still holds its 2^31 + 1001 references: the node must be alive. It is then abandoned (releasing
+		// two thousand million references one by one would only cost time; other programs check the release side).
+		bulk = nodes.back();
+		nodes.pop_back();
+		if (bulk->destroyed.load() != 0)
+			ctx.fail("destroyed-early", "a shared node holding more than 2^31 references was destroyed while they were still outstanding");
+		ctx.label("more_than_2e31_references");
+	}
 	long freed = main_freed, mism = 0;
 	for (auto &a : args)
 	{
